@@ -98,7 +98,7 @@ SOUP_TOKENS = [
     "|", "<<", ">>", "==", "!=", "<", ">", "~", ".", ":", "\\", "?", "\0", "\t", "\n", "\n", "identifier=1", "bank_range=0,1", "é", "x := 1", "i := 0, 2",
 ]  # fmt: skip
 SOUP_TOKENS += [c for c in "!\"#$%&'()*+,-./:;<=>?@[\\]^_`{|}~"]  # every ASCII punctuation character on its own
-SOUP_TOKENS += ["lda #-1", "lda -1", "#-1", "-1", ".ascii 'a fairly long string, never closed, with enough characters", "'" + "x" * 40, "lda #1 %", "lda (", "lda [", "lda #(", "lda.w #A %", ".db 1 %", "'main.s'", ".include 'main.s'", "a.b.c", "a..b", "0x", "0b", "0o7", "1e5", "lda.", "lda.w", ".", "..", ".db", ".db ,", ",,", "{{ x", "x }}", "*=", "@= 1", "x :=", "x =", "m(,)", "m((", "))"]
+SOUP_TOKENS += [".macro r() {\n r()\n}\nr()", ".macro ra() {\n rb()\n}\n.macro rb() {\n ra()\n}\nra()", ".macro q(b) {\n {{ b }}\n}\nq({\n q({\n nop\n})\n})", "{ { { { { { { {", "( ( ( ( ( ( (", "lda ((((((((1", "lda #-1", "lda -1", "#-1", "-1", ".ascii 'a fairly long string, never closed, with enough characters", "'" + "x" * 40, "lda #1 %", "lda (", "lda [", "lda #(", "lda.w #A %", ".db 1 %", "'main.s'", ".include 'main.s'", "a.b.c", "a..b", "0x", "0b", "0o7", "1e5", "lda.", "lda.w", ".", "..", ".db", ".db ,", ",,", "{{ x", "x }}", "*=", "@= 1", "x :=", "x =", "m(,)", "m((", "))"]
 
 
 def lexical_bucket(text: bytes, at: int) -> str:
